@@ -6,7 +6,17 @@ from .model import unparse
 
 
 def node_defs(node):
-    """local names (re)bound by this CFG node."""
+    """local names (re)bound by this CFG node (memoised on the node)."""
+    cached = node.info.get("_defs") if isinstance(node.info, dict) else None
+    if cached is not None:
+        return cached
+    out = _node_defs(node)
+    if isinstance(node.info, dict):
+        node.info["_defs"] = out
+    return out
+
+
+def _node_defs(node):
     out = set()
     k = node.kind
     st = node.ast
@@ -58,6 +68,16 @@ def node_uses(node):
 def reaching_defs(g, node, var):
     """CFG nodes defining `var` whose definition may reach the *entry* of `node`.
     The pseudo-definition 'entry' (parameter / undefined) is returned as g.entry."""
+    cache = g.__dict__.setdefault("_rd_cache", {})
+    key = (node.id, var)
+    if key in cache:
+        return set(cache[key])
+    out = _reaching_defs(g, node, var)
+    cache[key] = frozenset(out)
+    return out
+
+
+def _reaching_defs(g, node, var):
     out = set()
     seen = set()
     stack = [p for _, p in node.pred]
